@@ -54,6 +54,35 @@ def state_check(sd, hist):
             v.append(((PROP + ".report-fails", name, r[1], last), "after %r: %s" % (hist[-1] if hist else None, r[2])))
     if v:
         return v
+    # every report lists exactly the live components, and two reports of the same thing agree with each other
+    live = set(real["comps"])
+    def comps_of(rep):
+        r = reps.get(rep)
+        if isinstance(r, dict):
+            return set(k[-2] if rep != "phases" else k[0] for k in r["rows"] if not str(k[-2] if rep != "phases" else k[0]).startswith(("Subsystem ", "System ")))
+        return None
+    for rep in ("solve_energy", "params", "limits"):
+        cs = comps_of(rep)
+        if cs is not None and cs != live:
+            v.append(((PROP + ".component-set", rep, last), "%s lists %r, live components are %r" % (rep, sorted(cs), sorted(live))))
+    t = reps.get("tree")
+    if isinstance(t, tuple) and t[0] == "tree":
+        tn = set(n for _, n in t[1]) - {"t"}
+        if tn != live:
+            v.append(((PROP + ".component-set", "tree", last), "tree() shows %r, live %r" % (sorted(tn), sorted(live))))
+    dg = reps.get("diag")
+    if isinstance(dg, tuple) and dg[0] == "diag" and set(dg[1]) != live:
+        v.append(((PROP + ".component-set", "diag", last), "diagram nodes %r, live %r" % (sorted(dg[1]), sorted(live))))
+    pl, li = reps.get("params"), reps.get("limits")
+    if isinstance(pl, dict) and isinstance(li, dict):
+        for k, row in li["rows"].items():
+            prow = pl["rows"].get(k, {})
+            for col, val in row.items():
+                pc = col.replace(" (", " limit (", 1) if " limit" not in col and col not in ("Component", "Type") else col
+                pc = __import__("re").sub(r"\s+", " ", pc)
+                cand = [c for c in prow if __import__("re").sub(r"\s+", " ", c) == pc]
+                if cand and prow[cand[0]] != val:
+                    v.append(((PROP + ".limits-vs-params", col, last), "%s: limits() %r, params(limits=True) %r" % (k[0], val, prow[cand[0]])))
     fr = fresh_reports(ok[0])
     if isinstance(fr, tuple) and fr and fr[0] == "BUILD-EXC":
         v.append(((PROP + ".fresh-build-fails", fr[1], last), fr[2]))
